@@ -3,6 +3,9 @@ package listops
 import (
 	"fmt"
 	"sort"
+	"time"
+
+	astisub "github.com/asticode/go-astisub"
 
 	"verif/core"
 	"verif/props/lm"
@@ -134,4 +137,76 @@ func longRun(c *core.Ctx, op string) {
 			}
 		}
 	}
+}
+
+// againRun: the same Subtitles value used twice. An operation runs, the owner edits the list through its public
+// fields (a cue appended at the front of the timeline, the first cue moved behind the others), then an operation
+// runs again: its result must be what the specification says for the list as it is NOW - whatever the first call
+// may have remembered in the value.
+func againRun(c *core.Ctx, op string) {
+	a := cueAlphabet(3, []string{"x", "y"}, op == "fragment")
+	enumLists(a, 2, op != "add" && op != "unfragment", op == "force", func(l0 lm.List) bool {
+		if !c.Mine() || len(l0) == 0 {
+			return true
+		}
+		l := decorate(l0.Scale(ms))
+		for edit := 0; edit < 2; edit++ {
+			r := lm.Build(l, []string{"a"}, []string{"r"})
+			apply := func() {
+				switch op {
+				case "add":
+					r.Subs.Add(time.Duration(ms))
+				case "fragment":
+					r.Subs.Fragment(time.Duration(2 * ms))
+				case "unfragment":
+					r.Subs.Unfragment()
+				case "force":
+					r.Subs.ForceDuration(time.Duration(2*ms), false)
+				}
+			}
+			apply()
+			its := r.Subs.Items
+			switch {
+			case op == "force" && len(its) == 0:
+				r.Subs.Items = append(its, &astisub.Item{StartAt: 0, EndAt: time.Duration(5 * ms), Lines: []astisub.Line{{Items: []astisub.LineItem{{Text: "new"}}}}})
+			case op == "force" && edit == 0: // keep the precondition: ordered by start, non-decreasing ends
+				last := its[len(its)-1]
+				r.Subs.Items = append(its, &astisub.Item{StartAt: last.StartAt, EndAt: last.EndAt + time.Duration(5*ms), Lines: []astisub.Line{{Items: []astisub.LineItem{{Text: "new"}}}}})
+			case op == "force":
+				its[len(its)-1].EndAt += time.Duration(3 * ms)
+			case edit == 0:
+				r.Subs.Items = append([]*astisub.Item{{StartAt: 0, EndAt: time.Duration(5 * ms), Lines: []astisub.Line{{Items: []astisub.LineItem{{Text: "new"}}}}}}, its...)
+			default:
+				if len(its) > 0 {
+					last := its[len(its)-1]
+					its[0].StartAt, its[0].EndAt = last.StartAt, last.EndAt+time.Duration(3*ms)
+					r.Subs.Items = append(its[1:], its[0])
+				}
+			}
+			now := r.Extract()
+			for i := range now {
+				now[i].U = i
+			}
+			var exp lm.List
+			switch op {
+			case "add":
+				exp = refops.Add(now, ms)
+			case "fragment":
+				exp = refops.Fragment(now, 2*ms)
+			case "unfragment":
+				exp = refops.Unfragment(now)
+			case "force":
+				exp = refops.ForceDuration(now, 2*ms, false, -1)
+			}
+			apply()
+			got := r.Extract()
+			c.Transitions++
+			c.Record(op+".again", core.Hash64(got.Key()), core.Hash64(op, "again", l.Key(), fmt.Sprint(edit)), nil)
+			if !lm.EqualNoUID(got, exp) {
+				c.Violate(op, op+".second-call-ignores-edits", fmt.Sprintf("%s on %s, then the owner edited the list (edit %d) into %s, then %s again: expected %s, got %s", op, l, edit, now, op, exp, got),
+					opCase{Op: op + "-again", Unit: ms, List: l.Clone(), P: []int64{int64(edit)}}, len(l)+20)
+			}
+		}
+		return !c.Expired()
+	})
 }
